@@ -62,6 +62,7 @@ def project_nuts(run):
     """NutsTreeTrace vocabulary for one NUTS run. Returns list of dicts."""
     out = [{"e": "reset"}]
     in_draw = False
+    search_err = False
     e0 = None
     for ev in run:
         k = ev["ev"]
@@ -99,8 +100,12 @@ def project_nuts(run):
             out.append({"e": "sub_rej", "why": ev["why"], "depth": ev["depth"]})
         elif k == "extra" and in_draw:
             out.append({"e": "extra", "depth": ev["depth"]})
+        elif k == "search_try" and not in_draw:
+            if ev.get("res") == "err":
+                search_err = True      # unrecoverable error in the re-run of the step-size search (after the tree returned)
         elif k == "ret":
             in_draw = False
+            search_err = False
             out.append({"e": "ret", "why": ev["why"], "idx": ev["idx"], "depth": ev["depth"], "maxd": ev["maxd"],
                         "div": ev["div"], "lo": ev["lo"], "hi": ev["hi"], "ph": ev["ph"], "logp": ev["logp"],
                         "energy": ev["energy"], "finite": ev["finite"]})
@@ -109,7 +114,8 @@ def project_nuts(run):
             out.append({"e": "ret_err"})
         elif k == "draw_out":
             if ev["res"] != "ok":
-                out.append({"e": "out", "res": ev["res"]})
+                out.append({"e": "out", "res": ev["res"], "after": "search_err" if search_err else ""})
+                search_err = False
                 continue
             st = ev["stats"]
             energy = f_from_bits(sval(st, "energy"))
@@ -123,7 +129,7 @@ def project_nuts(run):
                         "div": sval(st, "diverging"), "nsteps": sval(st, "n_steps"),
                         "pnsteps": ev["progress"]["num_steps"],
                         "logp": sval(st, "logp"), "energy": sval(st, "energy"), "eerrok": bool(eerr_ok),
-                        "gh": gh, "finite": ev["finite"]})
+                        "gh": gh, "finite": ev["finite"], "after": ""})
     return out
 
 
@@ -241,6 +247,28 @@ def project_adapt(sc, run):
                                     mmok = False
             else:
                 good_pts = good_pts if is_good is None else good_pts
+        # ---- low-rank estimator (C09): the diagonal scales of an update are (var(x) / var(grad))^(1/4) over exactly the
+        # ---- draws the window holds - the last `fg` accepted ones (checked once the start point has left the window)
+        if kind == "global" and "lowrank" in sc["preset"]:
+            pos, grd = stat(stt, "unconstrained_draw"), stat(stt, "gradient")
+            if pos is not None and grd is not None and d["ret"] is not None:
+                idx0, div0 = d["ret"]["idx"], d["ret"]["div"]
+                if a["branch"] == "mass" and ((abs(idx0) > 4) if div0 else (idx0 != 0)):
+                    good_pts.append(([f_from_bits(x) for x in pos["v"]], [f_from_bits(x) for x in grd["v"]]))
+                sd = stat(stt, "mass_matrix_stds")
+                n = a.get("fg", 0)
+                if a.get("changed") and sd is not None and 3 <= n <= len(good_pts):
+                    window = good_pts[len(good_pts) - n:]
+                    got = [f_from_bits(x) for x in sd["v"]]
+                    for i in range(len(got)):
+                        xs = [w[0][i] for w in window]
+                        gs = [w[1][i] for w in window]
+                        mx, mg = sum(xs) / n, sum(gs) / n
+                        vx = sum((v - mx) ** 2 for v in xs) / n
+                        vg = sum((v - mg) ** 2 for v in gs) / n
+                        if vx > 0 and vg > 0 and math.isfinite(vx / vg):
+                            if not close((vx / vg) ** 0.25, got[i], rel=1e-8):
+                                mmok = False
         jit = None
         base = None
         if d["ss_set"]:
